@@ -419,7 +419,8 @@ def twoBad : SMap Str := [(str% "max_n", str% "x"), (str% "nope", str% "1")]
 
 /-- **negation witness 1** (the design-phase suspect, confirmed on the real code): two offending keys — the error the
 transaction reports, hence its output string, depends on the enumeration the Go runtime picks.
-Same shape in all six entry points (findings `C48:<contract>-error-depends-on-map-order`, and C06). -/
+Same shape in all six entry points. The settings are untouched either way (`rejected_changes_nothing`), so this is not a
+violation of C48's wording; the differing output is C06's subject (findings `C06:error-output:gov-<contract>`). -/
 theorem order_dependent_error_witness :
     (update Parsers.go .miner true id (str% "aa") (some twoBad) minerCfg0).1 = .key (str% "max_n") .unparsable ∧
     (update Parsers.go .miner true List.reverse (str% "aa") (some twoBad) minerCfg0).1 = .key (str% "nope") .unknown := by
